@@ -859,15 +859,17 @@ def abandon_walk(make_gen, mode: str, n_expected: int = 0, meanwhile=()):
     elif mode == 'throw':
         g = make_gen()
         next(g, None)
-        try:
-            g.throw(_ConsumerFailed())
-        except (_ConsumerFailed, StopIteration):
-            pass
+        if hasattr(g, 'throw'):       # the interface promises an iterator, not a generator: a plain iterator is just dropped
+            try:
+                g.throw(_ConsumerFailed())
+            except (_ConsumerFailed, StopIteration):
+                pass
     elif mode == 'close':
         g = make_gen()
         next(g, None)
         next(g, None)
-        g.close()
+        if hasattr(g, 'close'):
+            g.close()
     elif mode == 'interleaved':
         g = make_gen()
         first = [f.path for f in itertools.islice(g, 1)]
